@@ -37,6 +37,13 @@ def do_transform(ip, g, entry, x, s, copy=False):
         ip.setattr(x, "auto_transform", True)
         model = g.build(x, s, **ck)
         return model.f["_vars"].get("x_transformed"), model, ("default_D", lambda vals: [vals["p"]])
+    if entry == "auto_deep":
+        # the flagged variable is reached only TWO levels below the variable that is added to the builder: y2 ~ L2(m), m ~ Dm(x), x flagged
+        ip.setattr(x, "auto_transform", True)
+        m = g.var("m", dist=g.dist("Dm", x), parameter=True)
+        y2 = g.var("y2", dist=g.dist("L2", m), observed=True)
+        model = g.build(y2, **ck)
+        return model.f["_vars"].get("x_transformed"), model, ("default_D", lambda vals: [vals["p"]])
     gb = ip.call(g.GB, [], {})
     if entry == "deprecated_instance":
         t = ip.call(method(ip, gb, "transform"), [x, bijector_instance(ip, "B")], {})
@@ -89,20 +96,23 @@ def entry_unit(entry, copy=False):
         new = {"p": z3.Const("new_p", U), "s": z3.Const("new_s", U)}
         tv = z3.Const("new_t", U)
         ip.setattr(model.f["_vars"]["p"], "value", new["p"])
-        ip.setattr(model.f["_vars"]["s"], "value", new["s"])
+        if "s" in model.f["_vars"]:
+            ip.setattr(model.f["_vars"]["s"], "value", new["s"])
         ip.setattr(model.f["_vars"]["x_transformed"], "value", tv)
         c.oblige("original_is_bijector_image_of_new_variable", U_(ip.getattr(model.f["_vars"]["x"], "value")) == fwd(new, tv))
         want_lp = ip.uf("op_Add", ip.uf("logp_D", new["p"], fwd(new, tv)), fldj(new, tv))
         got_lp = ip.getattr(model.f["_vars"]["x_transformed"], "log_prob")
         from contracts.graph import TOTAL
         c.oblige("new_log_density_is_change_of_variables", to_sort(got_lp, Real) == TOTAL(want_lp) if is_z3(got_lp) and got_lp.sort() != U else U_(got_lp) == want_lp)
-        c.oblige("model_log_prob_counts_only_new_density", to_sort(ip.getattr(model, "log_prob"), Real) == TOTAL(want_lp))
+        if entry != "auto_deep":  # (the deep graph has further distributions)
+            c.oblige("model_log_prob_counts_only_new_density", to_sort(ip.getattr(model, "log_prob"), Real) == TOTAL(want_lp))
     return u
 
 
 for _e in ENTRY:
     entry_unit(_e)
     entry_unit(_e, copy=True)
+entry_unit("auto_deep")
 
 
 def chained_unit(first):
@@ -182,3 +192,9 @@ from contracts.c18 import SIG as _SIG, u_sigmoid  # noqa: E402
 unit("C14.liesel_bijector_log_det_jacobians_consistent", "C14", [f"{_SIG}::AlgebraicSigmoid._forward", f"{_SIG}::AlgebraicSigmoid._inverse",
                                                                  f"{_SIG}::AlgebraicSigmoid._inverse_log_det_jacobian", f"{_SIG}::AlgebraicSigmoid._forward_log_det_jacobian"],
      assumptions=["A-REAL", "sqrt(a) is the non-negative root for a >= 0; log(1/a) = -log(a) for a > 0 (ground instances)"])(u_sigmoid)
+
+
+# the caching protocol this property's statement rests on (values and densities "after updating")
+from contracts.c01 import register_cache_core  # noqa: E402
+
+register_cache_core("C14")
